@@ -295,6 +295,29 @@ def run_mode(strategy):
     return run
 
 
+@st.composite
+def large_cases(draw):
+    """Volumes beyond 64^3 voxels (odd sizes, several chunks of 32+)."""
+    c = draw(common())
+    if c["method"] == "majority":
+        c["method"] = "average"       # the majority downscaler is a Python loop
+    if c["encoding"] == "compressed_segmentation":
+        c["block"] = [8, 8, 8]
+    c["channels"] = 1
+    c["acc"] = draw(st.sampled_from([
+        {"type": "file", "flat": True, "gzip": False},
+        {"type": "sharded", "strategy": "on disk", "bits": [1, 1, 0]}]))
+    c.update({"mode": "generated",
+              "size": [draw(st.sampled_from([65, 67, 69, 71, 72, 90])),
+                       draw(st.sampled_from([64, 67, 71, 80])),
+                       draw(st.sampled_from([63, 65, 69, 70]))],
+              "ratios": draw(st.sampled_from([[1, 1, 1], [1, 1, 2],
+                                              [2, 1, 1]])),
+              "target": draw(st.sampled_from([16, 32])),
+              "max_scales": draw(st.sampled_from([2, 3]))})
+    return c
+
+
 def replay(ctx, case):
     check_case(ctx, case)
 
@@ -304,4 +327,6 @@ SUBS = [
         thorough=8000, min_per_shard=10),
     Sub("handbuilt", run_mode(hand_cases()), replay, quick=300,
         thorough=8000, min_per_shard=10),
+    Sub("large", run_mode(large_cases()), replay, quick=12, thorough=300,
+        shards=4),
 ]
